@@ -311,6 +311,18 @@ macro_rules! ansmsg_row {
                     let got = export(&coder);
                     let exp = refc.export();
                     vcheck!(got == exp, "C06/ans_stream_differs_from_reference", "after {} symbols: coder {} reference {}", n, hexwords(&got), hexwords(&exp));
+                    if n % 5 == pop_frac % 5 && !got.is_empty() {
+                        // a second session: the stored words are reopened and more symbols appended (documented use of
+                        // from_compressed); the stream must stay the reference's
+                        ctx.label("reopened_with_from_compressed");
+                        let words: Vec<$W> = got.iter().map(|&x| x as $W).collect();
+                        match Coder::from_compressed(words) {
+                            Ok(c) => coder = c,
+                            Err(_) => vfail!("C06/ans_reopen_rejected", "from_compressed rejected the coder's own export {}", hexwords(&got)),
+                        }
+                        let again = export(&coder);
+                        vcheck!(again == exp, "C06/ans_stream_differs_from_reference", "after reopening at {} symbols: coder {} reference {}", n, hexwords(&again), hexwords(&exp));
+                    }
                 }
                 if mode == 12 {
                     let eps = 2f64.powi(-((sbits - wbits) as i32 - prec as i32));
